@@ -191,6 +191,8 @@ def sweep(ctx):
         if rk and rk[0] == "Ok":
             n += 1
             rt = [e for e in lf.events if e[0] == "call" and last_seg(e[3]) == "retain" and is_connections(e[4][2][0])]
+            if not rt and srv.dead_sweep(ctx.facts, lf) is not None:
+                rt = [None]     # the two-step sweep (collect the done ones, then remove each): R10.4 checks the removals
             ctx.ob("R10.6", "sweep-before-ok", len(rt) == 1, "requests() returns Ok only after the sweep (retain) ran", fn.loc(lf.bb))
     ctx.ob("R10.6", "floor", n >= 1, "%d Ok path(s)" % n)
 
